@@ -1,4 +1,5 @@
-(* C19 — proofs about the Eq / Hash / Clone model (EqOrdModel.v).  The Ord part is in EqOrdCmpProofs.v. *)
+(* C19 — proofs about the Eq / Hash / Clone model (EqOrdModel.v).  The Ord part is in EqOrdCmpProofs.v;
+   the model of the code before /repo 32d9f676 and its refutations are in EqOrdHistory.v. *)
 From Coq Require Import Lia.
 From Verif Require Import EqOrdModel TheoremA.
 
@@ -135,22 +136,7 @@ Proof.
   induction H as [|x r Hx Hr IH]; cbn; [apply Forall_nil | apply Forall_app; split; assumption].
 Qed.
 
-(* what the code's equality looks at: thresh loses k and n *)
-Definition erase (x : node) : node :=
-  match n_tag x with TThresh => mkNode TThresh 0 PNone | _ => x end.
-
-Lemma eq_pair_spec x y : is_node x -> is_node y -> (eq_pair x y = true <-> erase x = erase y).
-Proof.
-  intros [m ->] [m' ->]. destruct m, m'; cbn; split; intro H; try discriminate H; try reflexivity;
-    try (apply N.eqb_eq in H; subst; reflexivity);
-    try (apply bytes_eqb_eq in H; subst; reflexivity);
-    try (injection H; intros; subst; apply N.eqb_refl);
-    try (injection H; intros; subst; apply bytes_eqb_eq; reflexivity);
-    try (apply andb_true_iff in H; destruct H as [H1 H2]; apply N.eqb_eq in H1; apply keys_eqb_eq in H2; subst; reflexivity);
-    try (injection H; intros; subst; apply andb_true_iff; split; [apply N.eqb_refl | apply keys_eqb_eq; reflexivity]).
-Qed.
-
-Lemma eq_pair_fixed_spec x y : is_node x -> is_node y -> (eq_pair_fixed x y = true <-> x = y).
+Lemma eq_pair_spec x y : is_node x -> is_node y -> (eq_pair x y = true <-> x = y).
 Proof.
   intros [m ->] [m' ->]. destruct m, m'; cbn; split; intro H; try discriminate H; try reflexivity;
     try (apply N.eqb_eq in H; subst; reflexivity);
@@ -163,141 +149,42 @@ Proof.
   - injection H as -> ->. rewrite !N.eqb_refl. reflexivity.
 Qed.
 
-Lemma erased_nodes m : Forall (fun e => exists x, is_node x /\ e = erase x) (map erase (preorder m)).
+(* ------------------------------------------------------------------ equality is structural *)
+Theorem eq_structural a b : eq_iter a b = true <-> a = b.
 Proof.
-  apply Forall_map. eapply Forall_impl; [|apply preorder_nodes]. intros x Hx. exists x. auto.
-Qed.
-
-(* ------------------------------------------------------------------ equality: the repaired definition is structural *)
-Theorem eq_fixed_structural a b : eq_fixed a b = true <-> a = b.
-Proof.
-  unfold eq_fixed. fold (zip_all eq_pair_fixed (preorder a) (preorder b)).
-  rewrite (zip_all_comparable eq_pair_fixed is_node eq_pair_fixed_spec) by apply preorder_nodes.
+  unfold eq_iter. fold (zip_all eq_pair (preorder a) (preorder b)).
+  rewrite (zip_all_comparable eq_pair is_node eq_pair_spec) by apply preorder_nodes.
   split.
   - intros [s [H|H]]; [apply (preorder_prefix_inj a b s H) | symmetry; apply (preorder_prefix_inj b a s H)].
   - intros ->. exists []. left. rewrite app_nil_r. reflexivity.
 Qed.
 
-(* the code as it exists: exact characterisation *)
-Theorem eq_iter_char a b :
-  eq_iter a b = true <-> comparable (map erase (preorder a)) (map erase (preorder b)).
-Proof.
-  unfold eq_iter. fold (zip_all eq_pair (preorder a) (preorder b)).
-  assert (E : forall l1 l2, Forall is_node l1 -> Forall is_node l2 ->
-              zip_all eq_pair l1 l2 = zip_all (fun x y => eq_pair_fixed x y) (map erase l1) (map erase l2)).
-  { induction l1 as [|x r IH]; intros [|y s] H1 H2; try reflexivity.
-    inversion H1; subst. inversion H2; subst. unfold zip_all. cbn.
-    fold (zip_all eq_pair r s). fold (zip_all (fun x y => eq_pair_fixed x y) (map erase r) (map erase s)).
-    rewrite (IH s) by assumption. f_equal.
-    destruct H3 as [m ->], H5 as [m' ->]. destruct m, m'; reflexivity. }
-  rewrite E by apply preorder_nodes.
-  apply (zip_all_comparable _ (fun e => exists x, is_node x /\ e = erase x)); try apply erased_nodes.
-  intros e e' [x [[m ->] ->]] [y [[m' ->] ->]].
-  destruct m, m'; cbn; split; intro H; try discriminate H; try reflexivity;
-    try (apply N.eqb_eq in H; subst; reflexivity);
-    try (apply bytes_eqb_eq in H; subst; reflexivity);
-    try (injection H; intros; subst; apply N.eqb_refl);
-    try (injection H; intros; subst; apply bytes_eqb_eq; reflexivity);
-    try (apply andb_true_iff in H; destruct H as [H1 H2]; apply N.eqb_eq in H1; apply keys_eqb_eq in H2; subst; reflexivity);
-    try (injection H; intros; subst; apply andb_true_iff; split; [apply N.eqb_refl | apply keys_eqb_eq; reflexivity]).
-Qed.
-
-(* one direction of eq_structural holds for the code as it exists: equal values compare equal *)
-Theorem eq_iter_complete a b : a = b -> eq_iter a b = true.
-Proof. intros ->. apply eq_iter_char. exists []. left. rewrite app_nil_r. reflexivity. Qed.
-
 Theorem eq_iter_sym a b : eq_iter a b = eq_iter b a.
-Proof.
-  apply eq_true_iff_eq. rewrite !eq_iter_char. split; intros [s [H|H]]; exists s; auto.
-Qed.
+Proof. apply eq_true_iff_eq. rewrite !eq_structural. split; congruence. Qed.
 
-Theorem eq_fixed_implies_eq_iter a b : eq_fixed a b = true -> eq_iter a b = true.
-Proof. intro H. apply eq_iter_complete. apply eq_fixed_structural. exact H. Qed.
+Theorem eq_iter_trans a b c : eq_iter a b = true -> eq_iter b c = true -> eq_iter a c = true.
+Proof. rewrite !eq_structural. congruence. Qed.
 
-(* thresh-free terms: the code's equality is structural *)
-Fixpoint thresh_free (m : ms) : Prop :=
-  match m with
-  | MThresh _ _ => False
-  | MAlt x | MSwap x | MCheck x | MDupIf x | MVerify x | MNonZero x | MZeroNotEqual x => thresh_free x
-  | MAndV x y | MAndB x y | MOrB x y | MOrD x y | MOrC x y | MOrI x y => thresh_free x /\ thresh_free y
-  | MAndOr a b c => thresh_free a /\ thresh_free b /\ thresh_free c
-  | _ => True
-  end.
-
-Lemma erase_thresh_free m : thresh_free m -> map erase (preorder m) = preorder m.
-Proof.
-  induction m using ms_ind'; cbn [thresh_free]; intro Hf; try contradiction;
-    cbn [preorder map]; rewrite ?map_app;
-    repeat match goal with H : _ /\ _ |- _ => destruct H end;
-    repeat match goal with IH : thresh_free ?x -> _, H : thresh_free ?x |- _ => rewrite (IH H); clear IH end;
-    reflexivity.
-Qed.
-
-Theorem eq_iter_structural_thresh_free a b :
-  thresh_free a -> thresh_free b -> (eq_iter a b = true <-> a = b).
-Proof.
-  intros Ha Hb. rewrite eq_iter_char, (erase_thresh_free a Ha), (erase_thresh_free b Hb). split.
-  - intros [s [H|H]]; [apply (preorder_prefix_inj a b s H) | symmetry; apply (preorder_prefix_inj b a s H)].
-  - intros ->. exists []. left. rewrite app_nil_r. reflexivity.
-Qed.
-
-(* ------------------------------------------------------------------ refutations (findings about /repo) *)
+(* witnesses used by the historical refutations and the descriptor examples *)
 Local Open Scope N_scope.
 Definition w_pk (k : key) : ms := MCheck (MPkK k).
 Definition w_spk (k : key) : ms := MSwap (MCheck (MPkK k)).
 
-(* thresh(1,pk(0),s:pk(1)) == thresh(2,pk(0),s:pk(1)) *)
-Theorem eq_structural_refuted_k :
-  exists a b, eq_iter a b = true /\ a <> b.
-Proof.
-  exists (MThresh 1 [w_pk 0; w_spk 1]), (MThresh 2 [w_pk 0; w_spk 1]). split; [vm_compute; reflexivity | discriminate].
-Qed.
-
-(* a thresh equals its prefix: thresh(1,pk(0),s:pk(1)) == thresh(1,pk(0),s:pk(1),s:pk(2)) (zip truncation) *)
-Theorem eq_structural_refuted_arity :
-  exists a b, eq_iter a b = true /\ a <> b.
-Proof.
-  exists (MThresh 1 [w_pk 0; w_spk 1]), (MThresh 1 [w_pk 0; w_spk 1; w_spk 2]). split; [vm_compute; reflexivity | discriminate].
-Qed.
-
-(* no truncation involved: the two pre-orders have the same length and the same discriminants
-   thresh(2,thresh(1,pk(0),s:pk(1)),s:pk(2),s:pk(3)) == thresh(2,thresh(1,pk(0),s:pk(1),s:pk(2)),s:pk(3)) *)
-Theorem eq_structural_refuted_regroup :
-  exists a b, eq_iter a b = true /\ a <> b /\ length (preorder a) = length (preorder b).
-Proof.
-  exists (MThresh 2 [MThresh 1 [w_pk 0; w_spk 1]; w_spk 2; w_spk 3]),
-         (MThresh 2 [MThresh 1 [w_pk 0; w_spk 1; w_spk 2]; w_spk 3]).
-  split; [vm_compute; reflexivity | split; [discriminate | reflexivity]].
-Qed.
-
-(* `==` is not even an equivalence relation: a == b, a == c, b != c *)
-Theorem eq_iter_not_transitive :
-  exists a b c, eq_iter b a = true /\ eq_iter a c = true /\ eq_iter b c = false.
-Proof.
-  exists (MThresh 1 [w_pk 0; w_spk 1]), (MThresh 1 [w_pk 0; w_spk 1; w_spk 2]), (MThresh 1 [w_pk 0; w_spk 1; w_spk 3]).
-  repeat split; vm_compute; reflexivity.
-Qed.
-
-Example thresh_free_example : thresh_free (MAndOr (MCheck (MPkK 0)) (MOlder 5) (MMulti 1 [1; 2])).
-Proof. cbn. tauto. Qed.
+(* the pairs on which the code before 32d9f676 answered `true` *)
+Example eq_regression_witnesses :
+  eq_iter (MThresh 1 [w_pk 0; w_spk 1]) (MThresh 2 [w_pk 0; w_spk 1]) = false /\
+  eq_iter (MThresh 1 [w_pk 0; w_spk 1]) (MThresh 1 [w_pk 0; w_spk 1; w_spk 2]) = false /\
+  eq_iter (MThresh 2 [MThresh 1 [w_pk 0; w_spk 1]; w_spk 2; w_spk 3])
+          (MThresh 2 [MThresh 1 [w_pk 0; w_spk 1; w_spk 2]; w_spk 3]) = false.
+Proof. vm_compute. repeat split. Qed.
 
 (* ------------------------------------------------------------------ Hash *)
 Theorem hash_consistent a b : a = b -> hash_iter a = hash_iter b.
 Proof. intros ->. reflexivity. Qed.
 
-(* with the repaired equality the Hash/Eq contract (k1 == k2 -> hash(k1) == hash(k2)) holds *)
-Theorem hash_eq_fixed_consistent a b : eq_fixed a b = true -> hash_iter a = hash_iter b.
-Proof. intro H. apply hash_consistent. apply eq_fixed_structural. exact H. Qed.
-
-(* with the equality as coded it does not: == says equal, the hash streams differ (k is hashed) *)
-Theorem hash_eq_contract_refuted : exists a b, eq_iter a b = true /\ hash_iter a <> hash_iter b.
-Proof.
-  exists (MThresh 1 [w_pk 0; w_spk 1]), (MThresh 2 [w_pk 0; w_spk 1]). split; [vm_compute; reflexivity | discriminate].
-Qed.
-
-Theorem hash_eq_iter_thresh_free a b :
-  thresh_free a -> thresh_free b -> eq_iter a b = true -> hash_iter a = hash_iter b.
-Proof. intros Ha Hb H. apply hash_consistent. apply (eq_iter_structural_thresh_free a b Ha Hb). exact H. Qed.
+(* the Hash/Eq contract: k1 == k2 -> hash(k1) == hash(k2) *)
+Theorem hash_eq_contract a b : eq_iter a b = true -> hash_iter a = hash_iter b.
+Proof. intro H. apply hash_consistent. apply eq_structural. exact H. Qed.
 
 (* ------------------------------------------------------------------ Clone *)
 Theorem clone_id m : clone_rec m = m.
@@ -306,5 +193,5 @@ Proof.
   f_equal. induction H as [|x r Hx Hr IH]; cbn; congruence.
 Qed.
 
-Theorem clone_eq m : eq_iter (clone_rec m) m = true /\ eq_fixed (clone_rec m) m = true.
-Proof. rewrite clone_id. split; [apply eq_iter_complete | apply eq_fixed_structural]; reflexivity. Qed.
+Theorem clone_eq m : eq_iter (clone_rec m) m = true.
+Proof. rewrite clone_id. apply eq_structural. reflexivity. Qed.
